@@ -36,6 +36,7 @@ CONSTANTS
   MaxWrites, WLens,
   Truncation,    \* BOOLEAN: the peer may die in the middle of a frame
   MaxQueued,     \* ws: messages the relay may have in flight (model bound)
+  WriteFailures, \* BOOLEAN: the transport may fail a write of the keep-alive reply (fatal for the connection)
   KeepHist,      \* FALSE in trace validation: the script of steps is not recorded
   FrameOK(_, _)  \* which (length, class) pairs the peer may produce (TRUE: any)
 
@@ -324,6 +325,16 @@ PongWrite(k) ==
   /\ UNCHANGED <<cfg, sent, wsq, packed, net, eof, abuf, rbuf, roff, wcur, wleft, wlen, nwrites,
                  nerr, npend, ncancel, ntimeout>>
 
+\* the transport fails the write of the reply (broken pipe, reset, write timeout): read() reports the error and the keep-alive
+\* is NOT handed to the caller as if it had been answered.  The connection is finished as far as the model is concerned
+\* (a partial reply may be on the wire).
+PongFail ==
+  /\ WriteFailures /\ pc = "pong" /\ pongleft > 0 /\ ~wafter
+  /\ results' = Append(results, [t |-> "io_err", id |-> pending]) /\ pc' = "dead"
+  /\ LogSeq(<<H("pongerr", 0, ""), H("result", pending, "io_err")>>)
+  /\ UNCHANGED <<cfg, sent, wsq, packed, net, eof, abuf, rbuf, roff, pending, pongleft, wcur, wleft, wlen, nwrites, wafter,
+                 out, units, nerr, npend, ncancel, ntimeout>>
+
 \* read() after a user write flushed the reply: the keep-alive is handed over at once
 PongFinish ==
   /\ pc = "pong" /\ pongleft = 0 /\ pending # 0
@@ -397,7 +408,7 @@ Next ==
   \/ ReadCall \/ TryDecode
   \/ DoFillStream \/ FillUdpBuffered \/ FillUdpDirect \/ FillWs
   \/ FillEof \/ FillErr \/ FillPending \/ FillTimeout
-  \/ DoPongWrite \/ PongPending \/ PongFinish \/ Cancel
+  \/ DoPongWrite \/ PongPending \/ PongFinish \/ PongFail \/ Cancel
   \/ DoWriteCall \/ DoWriteAccept \/ WritePending
 
 Spec == Init /\ [][Next]_vars
